@@ -45,7 +45,7 @@ REPO_TESTS = {"files": ["tests/core/test_nibbles_utils.py", "tests/core/test_bin
                             "encode_branch_node", "encode_leaf_node"]}
 FLOORS = {
     "quick": {"hp": 10000, "keypath": 800, "nib": 6000, "bin": 6000, "binnode_bad": 200,
-              "binnode_ok": 100, "hexnode_nodes": 200},
+              "binnode_ok": 100, "hexnode_nodes": 200, "encoders_odd_parts": 50},
     "thorough": {"hp": 200000, "keypath": 50000, "nib": 6000, "bin": 6000,
                  "binnode_bad": 250, "binnode_ok": 1000, "hexnode_nodes": 2000},
 }
@@ -159,6 +159,21 @@ def run_case(case, ctx):
             _check(not isinstance(res, Raised), "binnode-wellformed-rejected",
                    "parse_node(%s) raised InvalidNode for a well-formed node" % hx(node))
             ctx.count("binnode_wellformed")
+    elif kind == "binnode_encode_odd":
+        # encoders handed parts of the wrong size: either they refuse, or what they return must
+        # still parse back to exactly the parts that went in
+        L, R = bytes([0xA1]) * case["l"], bytes([0xB2]) * case["r"]
+        res = cut(ND.encode_branch_node, L, R, expect=(Exception,))
+        if not isinstance(res, Raised):
+            back = cut(ND.parse_node, res, expect=(Exception,))
+            _check(not isinstance(back, Raised) and tuple(back) == (1, L, R), "binnode-roundtrip",
+                   "encode_branch_node(%d bytes, %d bytes) was accepted and parses back to %r" % (case["l"], case["r"], back))
+        res = cut(ND.encode_kv_node, b"\x01\x00\x01", R, expect=(Exception,))
+        if not isinstance(res, Raised):
+            back = cut(ND.parse_node, res, expect=(Exception,))
+            _check(not isinstance(back, Raised) and tuple(back) == (0, b"\x01\x00\x01", R), "binnode-roundtrip",
+                   "encode_kv_node(path, %d-byte hash) was accepted and parses back to %r" % (case["r"], back))
+        ctx.count("encoders_odd_parts")
     elif kind == "hexnode":
         model = {unhx(k): unhx(v) for k, v in case["model"].items()}
         ref = refmpt.RefTrie(model)
@@ -265,6 +280,11 @@ def gen_cases(ctx):
                 yield {"kind": "binnode_bad", "node": _mk_binnode(t, ln, rnd).hex()}
     if ctx.shard == 0:
         yield {"kind": "binnode_bad", "none": True}
+    sizes = [0, 1, 16, 31, 32, 33, 48, 63, 64, 65]
+    for l in sizes:
+        for r in sizes:
+            if (l, r) != (32, 32) and mine():
+                yield {"kind": "binnode_encode_odd", "l": l, "r": r}
     # random beyond the bounds
     nrand = (400 if tier == "quick" else 6000)
     for _ in range(nrand):
